@@ -398,6 +398,85 @@ class OpRunner:
         self.unresolvable(src, moved, what)
         return 'ok'
 
+    # ------------------------------------------------------------ builder API (the "built subtree" of C10)
+    def op_builder(self, shapeA, _):
+        """InstanceBuilder methods on a symbolic builder with len(shapeA)-1 existing children and the cfg's properties:
+        children / properties are appended in call order, the other fields are untouched."""
+        ex, H, A = self.ex, self.H, self.atoms
+        P = ex.prog
+        B = H.B
+        nkids = len(shapeA) - 1
+        flat = (0,) + (0,) * nkids
+        b, brefs, _u = H.build_builder_tree(ex, A, 'N', flat, self.cfg)
+        extra1, r1, _ = H.build_builder_tree(ex, A, 'X', (0,), self.cfg)
+        extra2, r2, _ = H.build_builder_tree(ex, A, 'Y', (0, 0), self.cfg)
+        self.distinct(brefs + r1 + r2); self.register_refs(brefs + r1 + r2)
+        methods = ['with_child', 'add_child', 'with_children', 'add_children', 'with_property', 'add_property', 'with_properties', 'add_properties',
+                   'with_name', 'set_name', 'with_class', 'set_class', 'with_referent', 'new', 'empty', 'has_property']
+        m = methods[ex.nondet(len(methods), 'builder method')]
+        fn = P.resolve('InstanceBuilder::' + m)
+        if fn is None:
+            raise Unsupported('InstanceBuilder::%s not found' % m)
+        pre = clone_val(b)
+        key, val = StrV.lit(b'NewProp'), Enum('Variant', 'Int32', [sym_int('newprop_val', 'i32')])
+        key2, val2 = StrV.lit(b'Value'), Enum('Variant', 'Int32', [sym_int('newprop_val2', 'i32')])
+        name = StrV(None, z3.Int('new_name'))
+        by_ref = m.startswith(('add_', 'set_', 'has_'))
+        cell = Cell(b)
+        me = Ptr(cell) if by_ref else b
+        exp_children = list(pre.f[B['children']].items)
+        exp_props = [(p.f[0], p.f[1]) for p in pre.f[B['properties']].items]
+        exp_name, exp_class, exp_ref = pre.f[B['name']], pre.f[B['class']], pre.f[B['referent']]
+        self.scn = dict(op='builder', doms=[], live=[], builder_result=None, args=dict(builder=clone_val(b), x=clone_val(extra1), y=clone_val(extra2)),
+                        extra=dict(method=m, val=val, val2=val2, name=name))
+        try:
+            if m in ('with_child', 'add_child'):
+                out = ex.call_fn(fn, [me, extra1]); exp_children.append(extra1)
+            elif m in ('with_children', 'add_children'):
+                out = ex.call_fn(fn, [me, VecM([extra1, extra2])]); exp_children += [extra1, extra2]
+            elif m in ('with_property', 'add_property'):
+                out = ex.call_fn(fn, [me, key, val]); exp_props.append((key, val))
+            elif m in ('with_properties', 'add_properties'):
+                out = ex.call_fn(fn, [me, VecM([Struct([key, val]), Struct([key2, val2])])]); exp_props += [(key, val), (key2, val2)]
+            elif m in ('with_name', 'set_name'):
+                out = ex.call_fn(fn, [me, name]); exp_name = name
+            elif m in ('with_class', 'set_class'):
+                out = ex.call_fn(fn, [me, name]); exp_class = name
+            elif m == 'with_referent':
+                nr = ref_val(A.declare('W_newref'))
+                out = ex.call_fn(fn, [me, nr]); exp_ref = nr
+            elif m == 'has_property':
+                out = ex.call_fn(fn, [me, key2])
+                want = any(k.concrete_bytes() == b'Value' for k, _ in exp_props)
+                if out.concrete() is not want and ex.sat(out.t != z3.BoolVal(want)):
+                    self.fail('C10.builder', 'has_property answers %s for a builder whose property list %s the key' % (out, 'contains' if want else 'lacks'))
+                return 'ok'
+            elif m in ('new', 'empty'):
+                out = ex.call_fn(fn, [name] if m == 'new' else [])
+                if out.f[B['children']].items or out.f[B['properties']].items:
+                    self.fail('C10.builder', m + ': fresh builder is not empty')
+                if m == 'new' and not (same_val(ex, out.f[B['class']], name) and same_val(ex, out.f[B['name']], name)):
+                    self.fail('C10.builder', 'new: name/class are not the given class name')
+                if A.canon(out.f[B['referent']]) in ('none',) or not str(A.canon(out.f[B['referent']])).startswith('newref'):
+                    self.fail('C10.builder', m + ': referent is not fresh')
+                return 'ok'
+        except PanicPath as p_:
+            self.fail('C10.builder', 'InstanceBuilder::%s panics: %s' % (m, p_.msg))
+            return 'ok'
+        res = cell.v if by_ref else out
+        self.scn['builder_result'] = res
+        if m == 'with_referent':
+            self.scn['extra']['newref'] = nr
+        got_children = res.f[B['children']].items
+        if len(got_children) != len(exp_children) or any(not same_val(ex, x.f[B['referent']], y.f[B['referent']]) for x, y in zip(got_children, exp_children)):
+            self.fail('C10.builder', '%s: children are %s, expected %s (builder order)' % (m, [str(A.canon(x.f[B['referent']])) for x in got_children], [str(A.canon(y.f[B['referent']])) for y in exp_children]))
+        got_props = [(p.f[0], p.f[1]) for p in res.f[B['properties']].items]
+        if len(got_props) != len(exp_props) or any(not (same_val(ex, a[0], b_[0]) and same_val(ex, a[1], b_[1])) for a, b_ in zip(got_props, exp_props)):
+            self.fail('C10.builder', '%s: property list changed unexpectedly (%d entries, expected %d)' % (m, len(got_props), len(exp_props)))
+        if not same_val(ex, res.f[B['name']], exp_name) or not same_val(ex, res.f[B['class']], exp_class) or not same_val(ex, res.f[B['referent']], exp_ref):
+            self.fail('C10.builder', m + ': name / class / referent not as documented')
+        return 'ok'
+
     # ------------------------------------------------------------ clones
     def check_clone(self, what, preS, postD, preD_keys, roots, new_roots, same_dom, present0):
         """isomorphism + Ref rewrite rule. roots: original root atoms; new_roots: returned atoms."""
